@@ -60,6 +60,7 @@ type Engine struct {
 	// variables (constants only); InitOnly: the variables nothing else writes.
 	GlobalInit *absint.State
 	InitOnly   map[string]bool
+	InitError  error // why package initialisation could not be interpreted (nil if it was)
 }
 
 type Leaf struct {
@@ -732,7 +733,23 @@ func readOnlyUse(v ssa.Value, depth int) bool {
 			if b, ok := x.Call.Value.(*ssa.Builtin); ok && (b.Name() == "len" || b.Name() == "cap") {
 				continue
 			}
+			// handed to a function of the module whose parameter is itself only read
+			if cal := x.Call.StaticCallee(); cal != nil && load.InModule(cal) && cal.Blocks != nil && !x.Call.IsInvoke() && ssa.Value(cal) != v {
+				ok := true
+				for i, a := range x.Call.Args {
+					if a == v && (i >= len(cal.Params) || !readOnlyUse(cal.Params[i], depth+1)) {
+						ok = false
+					}
+				}
+				if ok {
+					continue
+				}
+			}
 			return false
+		case *ssa.Phi:
+			if !readOnlyUse(x, depth+1) {
+				return false
+			}
 		default:
 			return false
 		}
@@ -847,7 +864,11 @@ func (e *Engine) initGlobals() {
 		fmt.Println("package initialisation not interpreted:", err)
 	}
 	if err != nil {
-		return // initialisation outside the modelled fragment: globals stay symbolic (reads are then reported)
+		// initialisation outside the modelled fragment: the contents of the tables
+		// are unknown - they must not be read as zero values (reads are reported)
+		e.InitOnly = map[string]bool{}
+		e.InitError = err
+		return
 	}
 	// keep constants only (node ids 0/1 are valid in every context)
 	for _, k := range out.Keys() {
@@ -865,23 +886,71 @@ func (e *Engine) initGlobals() {
 			}
 			return r
 		}
-		switch x := v.(type) {
-		case dom.BV:
-			if _, isc := x.IsConst(); isc {
-				e.GlobalInit.Set(ren(root), path, x)
+		// constants, and references among what initialisation built (renamed);
+		// a closure is kept with its bindings when those are of that kind too
+		var port func(v absint.Value, depth int) (absint.Value, bool)
+		port = func(v absint.Value, depth int) (absint.Value, bool) {
+			if depth > 6 {
+				return nil, false
 			}
-		case *absint.Slice:
-			y := *x
-			y.Root = ren(y.Root)
-			e.GlobalInit.Set(ren(root), path, &y)
-		case *absint.Ptr:
-			y := *x
-			y.Root = ren(y.Root)
-			e.GlobalInit.Set(ren(root), path, &y)
-		case *absint.FuncV:
-			if len(x.Bindings) == 0 {
-				e.GlobalInit.Set(ren(root), path, x)
+			switch x := v.(type) {
+			case dom.BV:
+				_, isc := x.IsConst()
+				return x, isc
+			case *absint.Slice:
+				if x.Rope != nil || x.Sym != "" {
+					return nil, false
+				}
+				if _, isc := x.Len.IsConst(); !isc {
+					return nil, false
+				}
+				y := *x
+				y.Root = ren(y.Root)
+				return &y, true
+			case *absint.Ptr:
+				if x.Idx != nil {
+					return nil, false
+				}
+				y := *x
+				y.Root = ren(y.Root)
+				return &y, true
+			case *absint.FuncV:
+				y := &absint.FuncV{Fn: x.Fn}
+				for _, b := range x.Bindings {
+					pb, ok := port(b, depth+1)
+					if !ok {
+						return nil, false
+					}
+					y.Bindings = append(y.Bindings, pb)
+				}
+				return y, true
+			case *absint.Struct:
+				y := &absint.Struct{}
+				for _, f := range x.Fields {
+					pf, ok := port(f, depth+1)
+					if !ok {
+						return nil, false
+					}
+					y.Fields = append(y.Fields, pf)
+				}
+				return y, true
+			case *absint.Iface:
+				if x.Nil == bdd.True {
+					return x, true
+				}
+				if x.Sym != "" || x.Conc == nil || x.Nil != bdd.False {
+					return nil, false
+				}
+				pc, ok := port(x.Conc, depth+1)
+				if !ok {
+					return nil, false
+				}
+				return &absint.Iface{Nil: bdd.False, Conc: pc, ConcType: x.ConcType}, true
 			}
+			return nil, false
+		}
+		if pv, ok := port(v, 0); ok {
+			e.GlobalInit.Set(ren(root), path, pv)
 		}
 	}
 }
